@@ -10,9 +10,6 @@ import "strings"
 var knownTable = map[string][]string{
 	// declared in the headers, no native registered anywhere (upstream incompleteness)
 	"unimplemented-natives": {
-		"Std::ArrayList#<<@",
-		"Std::ArrayList#clear",
-		"Std::ArrayList#pop",
 		"Std::ArrayList#view",
 		"Std::ArrayTuple#view",
 		"Std::Closure#location",
@@ -33,8 +30,6 @@ var knownTable = map[string][]string{
 		"Std::Float#to_bigfloat",
 		"Std::Float32#to_bigfloat",
 		"Std::Float64#to_bigfloat",
-		"Std::HashMap#map_pairs",
-		"Std::HashRecord#map_pairs",
 		"Std::HashSet#clear",
 		"Std::Int#to_uint",
 		"Std::List#map_mut",
